@@ -40,6 +40,21 @@ Theorem C19_names_have_no_separator : forall n, ~ In SLASH (repl_sep n).
 Proof. exact repl_sep_no_slash. Qed.
 Print Assumptions C19_names_have_no_separator.
 
+(* path -> URI -> path is the identity at byte level, for every byte string: the
+   transcription of urllib.parse.quote_from_bytes / unquote_to_bytes (no longer an oracle) *)
+Theorem C19_uri_path_roundtrip : forall bs,
+  Forall (fun c => 0 <= c < 256) bs -> unquote (flat_map utf8 (quote_bytes bs)) = bs.
+Proof. exact uri_path_roundtrip_lemma. Qed.
+Print Assumptions C19_uri_path_roundtrip.
+
+(* lines without a scheme (relative / absolute local paths) are modelled, not an oracle:
+   with the table computed by local_ref for the lines of the text, load_items never asks
+   for an oracle *)
+Theorem C19_local_lines_modelled : forall raises basedir text,
+  load_items raises (local_table basedir (ulines text)) text <> Raise LNoOracle.
+Proof. exact load_items_model_table_lemma. Qed.
+Print Assumptions C19_local_lines_modelled.
+
 (* T2: what save() returns and leaves on disk: the given tracks, the name of the file it
    ended up in, that file holding exactly dump_items(tracks), every other playlist
    untouched, the old name gone after a rename. *)
